@@ -122,12 +122,17 @@ def body_params(B, I):
     return True
 
 
-def make_params(nsets, wr):
+def make_params(nsets, wr, ovW=None, ovT=None, ovM=None):
     def make(env):
         setup_env(env)
-        return cond_fn('logicle_params', [('ovT', 'bool'), ('ovM', 'bool'), ('ovW', 'bool'),
-                                          ('aslist', 'bool')],
-                       body_params, consts={'nsets': nsets, 'wr': wr})
+        params = [('ovT', 'bool'), ('ovM', 'bool'), ('ovW', 'bool'), ('aslist', 'bool')]
+        consts = {'nsets': nsets, 'wr': wr}
+        # same claim split into jobs by which parameters are given / derived
+        for nm, v in (('ovW', ovW), ('ovT', ovT), ('ovM', ovM)):
+            if v is not None:
+                params.remove((nm, 'bool'))
+                consts[nm] = v
+        return cond_fn('logicle_params', params, body_params, consts=consts)
     return make
 
 
@@ -330,11 +335,16 @@ def make_root_fail(env):
 
 def conditions(tier):
     mods = ('plot', 'io')
-    cs = [Cond('params_%dset_r%d%d' % (n, a, b_), make=make_params(n, (bool(a), bool(b_))),
-               replay=std_replay(body_params), timeout=600, modules=mods,
+    cs = [Cond('params_%dset_r%d%d%s' % (n, a, b_, '' if w is None else
+                                         ('_wgiven' if w else '_wderived_t%dm%d' % (t, m))),
+               make=make_params(n, (bool(a), bool(b_)), w, t, m),
+               replay=std_replay(body_params), timeout=900, modules=mods,
                doc='%d data set(s), known range=%s, overrides symbolic: T, M, W follow the '
                    'documented rules; T<=0, M<=0, W<0 refused' % (n, (a, b_)))
-          for n, a, b_ in ((1, 0, 0), (1, 1, 0), (2, 0, 0), (2, 0, 1), (2, 1, 0), (2, 1, 1))]
+          for n, a, b_ in ((1, 0, 0), (1, 1, 0), (2, 0, 0), (2, 0, 1), (2, 1, 0), (2, 1, 1))
+          for (w, t, m) in ([(None, None, None)] if n == 1 else
+                            [(True, None, None), (False, False, False), (False, False, True),
+                             (False, True, False), (False, True, True)])]
     cs += [
         Cond('formula', make=make_formula, replay=std_replay(body_formula), timeout=300,
              modules=mods, doc='published biexponential in (T,M,W,p); x(W)=0; s1<s2 => '
